@@ -8,23 +8,30 @@ PROP = {'drive': ['Otl'], 'modules': ['SfntV.Props.C08'],
                        'C08_lookuplist_layout', 'C08_valuerecord_roundtrip', 'C08_st_roundtrip_gpos1_1',
                        'C08_st_roundtrip_gpos1_2', 'C08_gpos1_2_normal_form', 'C08_st_roundtrip_gpos2_1',
                        'C08_featurelist_roundtrip', 'C08_gdef_roundtrip', 'C08_gtab_roundtrip',
-                       'C08_gtab_nil_normal_form'],
+                       'C08_gtab_nil_normal_form', 'C08_scriptlist_roundtrip', 'C08_scriptlist_encode_total',
+                       'C08_gtab_scriptlist_roundtrip'],
  'areas': [('otl', 900, 12000)],
  'rule': 'distinct case lines; non-trivial = coverage/class tables with at least two glyphs/runs, every '
          'subtable, every lookup-list and every mutated-bytes case',
- 'partial': ['codecs proved: GSUB 1.1, 1.2, 2.1, 3.1, 4.1, GPOS value records, GPOS 1.1, 1.2, 2.1, feature list, GDEF',
+ 'partial': ['codecs proved: GSUB 1.1, 1.2, 2.1, 3.1, 4.1, GPOS value records, GPOS 1.1, 1.2, 2.1, feature list, '
+             'script list, GSUB/GPOS header, GDEF',
              'modelled and tied by byte-exact encode / value-exact decode correspondence (incl. the 16-bit '
              'boundary of every offset and mutated bytes) but without round-trip theorems yet: GSUB 8.1, '
              'GPOS 2.2, 3.1, 4.1, 6.1 (with anchors and mark arrays), SeqContext1/2/3 and '
              'ChainedSeqContext1/2/3 (streams otl.gsub.*, otl.gpos.*). Not modelled: GPOS 5.1 (the library has '
              'no encoder for it: encode/encodeLen panic "not implemented")',
-             'script list: ScriptListInfo.encode / readScriptList are modelled on the OpenType side of the tag '
-             'conversion (bcp47ToOtf/otfToBCP47 mutually inverse on the library tables is property C14, an '
-             'assumption here; the accepted tag sets are regenerated from locale.go) and tied by byte-exact '
-             'encode / value-exact decode correspondence incl. the 16-bit boundaries and mutated bytes '
-             '(streams otl.sl.*); scriptlist_roundtrip is not proved yet',
+             'script list: ScriptListInfo.encode / readScriptList are modelled and proved on the OpenType side of '
+             'the tag conversion (C08_scriptlist_roundtrip: every (script, language system, required, optional) '
+             'entry written is read back and nothing else, wherever the list lies in a table; entries compared as '
+             'a Go map). bcp47ToOtf/otfToBCP47 mutually inverse on the library tables is property C14 '
+             '(C14_tag_roundtrip_partial), an assumption here; the accepted tag sets are regenerated from '
+             'locale.go. Normal form: an optional feature index 0xFFFF is outside the domain (the reader turns '
+             'it into 0). Tied by byte-exact encode / value-exact decode correspondence incl. the 16-bit '
+             'boundaries and mutated bytes (streams otl.sl.*). Not repaired: the default-LangSys offset of a '
+             'script with more than 10921 named language systems is written unchecked (the library knows far '
+             'fewer language tags)',
              'GSUB/GPOS table: C08_gtab_roundtrip proves header + feature list + lookup list for any script-list '
-             'bytes; the whole decoder gtab.Read (header, script list, feature list, lookup list with the real '
+             'bytes and C08_gtab_scriptlist_roundtrip the script list inside the table; the whole decoder gtab.Read (header, script list, feature list, lookup list with the real '
              'GSUB reader for lookup types 1-4) is additionally tied by value-exact correspondence (otl.gtab.read). '
              'Normal form: a nil ScriptList/FeatureList/LookupList is written and read back as the empty list '
              '(C08_gtab_nil_normal_form, repair 10)',
@@ -57,13 +64,13 @@ PROP = {'drive': ['Otl'], 'modules': ['SfntV.Props.C08'],
 LEVEL = {'text': 'Proof (partial over subtable types): Lean models of coverage.Table/Set Encode/EncodeLen/Read, '
          'classdef.Table Append/AppendLen/Read, LookupList.encode with tryReorder and extension records '
          '(subtables as opaque blobs), GSUB 1.1/1.2/2.1/3.1/4.1, GPOS value records and 1.1/1.2/2.1, the '
-         'feature list and GDEF; theorems: decode(encode x) = x, declared size = emitted size, coverage '
+         'feature list, the script list, the GSUB/GPOS header and GDEF; theorems: decode(encode x) = x, declared size = emitted size, coverage '
          'indices 0..n-1 in glyph order, the smaller format is chosen, independence of map iteration order, '
          'and for every lookup list either the specification reader recovers every (type, flags, mark '
          'filtering set, subtable bytes) through the written 16-bit offsets and 32-bit extension offsets, or '
          'the encoder panics - never a wrapped offset. Tied to the code by byte-exact encoder and '
          'value-exact decoder correspondence (generated, boundary and mutated inputs) and by evaluating '
-         'independent specification readers on the bytes of the real encoders. Twenty-one silent 16-bit '
+         'independent specification readers on the bytes of the real encoders. Twenty-two silent 16-bit '
          'truncations found on the way were repaired as loud refusals (one, classdef format 1, as a '
          'correct choice of format 2).',
  'note': 'Trusted: Lean kernel + 3 standard axioms; hand-written models mirror the (repaired) Go code as checked '
